@@ -3,11 +3,13 @@
   ({"id":n,"out":…} or {"id":n,"err":"…"}).  Imports the model and `Lean.Data.Json` only.
 -/
 import SpVerif.Drive.Naming
+import SpVerif.Drive.Conflicts
+import SpVerif.Drive.Replace
 open Lean SpVerif.Drive
 
 /-- every op of every per-property driver module: add `++ <module>Ops` here -/
 def allOps : List (String × (Json → R Json)) :=
-  namingOps
+  namingOps ++ conflictsOps ++ replaceOps
 
 def dispatch (op : String) (c : Json) : R Json :=
   match allOps.lookup op with
